@@ -96,15 +96,50 @@ Definition spec_m_b (x : message) (identity_produced : bool) : bool :=
       end).
 
 (* ---------------------------------------------------------------------------------------------
+   The same property over a Response that delivers several assertions (each in the clear,
+   encrypted, or inside the <Advice> of another one; any order).  The observable is, per delivered
+   assertion, whether identity was drawn from it (its NameID is the one returned / cached, its
+   attributes are among the returned ones, it is the assertion handed to the caller).  "Identity is
+   never produced FROM AN ASSERTION whose audience restrictions are not all satisfied ...": every
+   assertion that identity is drawn from must - on its own, whatever else the Response carries and
+   however the assertion travelled - satisfy the clauses: its restrictions, the Response's
+   Destination, and (top-level assertions: the subject is confirmed by THEIR confirmations) its
+   bearer Recipients.  An assertion inside an <Advice> contributes attributes only; the Recipient
+   clause puts no obligation on it.  An observation of the wrong length is a failure. *)
+Fixpoint all2 {A B} (f : A -> B -> bool) (l1 : list A) (l2 : list B) : bool :=
+  match l1, l2 with
+  | [], [] => true
+  | a :: r1, b :: r2 => f a b && all2 f r1 r2
+  | _, _ => false
+  end.
+
+(* what the clauses read of one delivered assertion *)
+Definition obligations (x : response) (a : assertion) : message :=
+  {| m_me := r_me x; m_specs := r_specs x; m_binding := r_binding x; m_conds := a_conds a;
+     m_dest := r_dest x; m_conv := r_conv x;
+     m_confs := match a_how a with Advised => [] | _ => a_confs a end |}.
+
+Definition spec_a (x : response) (a : assertion) (identity_drawn : bool) : Prop :=
+  spec_m (obligations x a) identity_drawn.
+
+Definition spec_r (x : response) (drawn : list bool) : Prop := Forall2 (spec_a x) (r_assertions x) drawn.
+
+Definition spec_r_b (x : response) (drawn : list bool) : bool :=
+  all2 (fun a d => spec_m_b (obligations x a) d) (r_assertions x) drawn.
+
+(* ---------------------------------------------------------------------------------------------
    The property over call sequences: whatever was called before — on this provider object or on
    any other provider object of the process — every parse_authn_request_response call satisfies
-   [spec_m] with respect to the configuration of the object it was called on ("the provider's own
+   [spec_m] (a Response with a list of assertions: [spec_r]) with respect to the configuration of
+   the object it was called on ("the provider's own
    entityID", "the provider's own endpoints").  Calls that produce no identity carry no
    obligation; a result of the wrong kind for a parse call is a failure. *)
 Definition spec_ev (o : op) (r : out) : Prop :=
   match o, r with
   | OParse x, RId b => spec_m x b
   | OParse _, _ => False
+  | OResp x, RFrom l => spec_r x l
+  | OResp _, _ => False
   | _, _ => True
   end.
 
@@ -114,14 +149,9 @@ Definition spec_ev_b (o : op) (r : out) : bool :=
   match o, r with
   | OParse x, RId b => spec_m_b x b
   | OParse _, _ => false
+  | OResp x, RFrom l => spec_r_b x l
+  | OResp _, _ => false
   | _, _ => true
-  end.
-
-Fixpoint all2 {A B} (f : A -> B -> bool) (l1 : list A) (l2 : list B) : bool :=
-  match l1, l2 with
-  | [], [] => true
-  | a :: r1, b :: r2 => f a b && all2 f r1 r2
-  | _, _ => false
   end.
 
 Definition spec_trace_b (ops : list op) (rs : list out) : bool := all2 spec_ev_b ops rs.
